@@ -73,6 +73,10 @@ func c12Table(schema, gtype string) tableDef {
 	t := tableDef{Name: "parcels", GCol: "geom", GType: gt}
 	if schema == "fid" {
 		t.Cols = []colDef{{Name: "fid", Type: "INTEGER", NotNull: true, PK: true}, {Name: "geom", Type: gtype}}
+	} else if schema == "bigint-key" {
+		// a key that is no alias of the rowid (BIGINT, not INTEGER), declared types with a length, NOT NULL attributes;
+		// the keys are handed over in descending order
+		t.Cols = []colDef{{Name: "id", Type: "BIGINT", NotNull: true, PK: true}, {Name: "label", Type: "VARCHAR(20)", NotNull: true}, {Name: "geom", Type: gtype}, {Name: "height", Type: "DOUBLE"}}
 	} else {
 		// geometry column in the middle; integer, real and text attributes that may be NULL
 		t.Cols = []colDef{{Name: "fid", Type: "INTEGER", NotNull: true, PK: true}, {Name: "cnt", Type: "INTEGER"}, {Name: "geom", Type: gtype}, {Name: "area", Type: "REAL"}, {Name: "name", Type: "TEXT"}}
@@ -132,6 +136,9 @@ func c12Attrs(schema string, i int) []interface{} {
 	fid := int64(i + 1)
 	if schema == "fid" {
 		return []interface{}{fid}
+	}
+	if schema == "bigint-key" {
+		return []interface{}{int64(1000 - 10*i + 5*(i%2)), fmt.Sprintf("l%d", i), 2.5 * float64(i)}
 	}
 	// every NULL pattern over the three attribute columns, cycling with the row number
 	var cnt, area, name interface{}
@@ -214,6 +221,14 @@ func c12Cases(thorough bool) []c12Case {
 		for p := 1; p <= 2; p++ {
 			for _, pat := range []string{"", "A", "B", "AB", "ABA", "BAA"} {
 				cs = append(cs, c12Case{Page: p, N: len(pat), Pattern: pat, Schema: "mixed", GType: gt})
+			}
+		}
+	}
+	// a table whose key is no rowid alias and whose rows arrive in descending key order
+	for p := 1; p <= 2; p++ {
+		for n := 0; n <= 2*p+1; n++ {
+			for _, gt := range []string{"POLYGON", "POINT"} {
+				cs = append(cs, c12Case{Page: p, N: n, Pattern: strings.Repeat("A", n), Schema: "bigint-key", GType: gt})
 			}
 		}
 	}
